@@ -96,7 +96,13 @@ META = {
         "configuration stored on the Sphinx environment controls its pickled state (__getstate__) for fields that can hold a function. R20 a "
         "transform that deletes a node attribute reads it only under a membership test (transforms run twice for rST include with :parser:). "
         "R21 the renderer's finalisation drops queued transforms whose pending node left the document. R22 pending(Filter, component=..) "
-        "nodes only name transformer components that always exist (html_meta's component='writer' is a known finding). R23 a loop that "
+        "nodes only name transformer components that always exist (html_meta's component='writer' is a known finding). R24 a registered transform with a priority below sphinx's HandleCodeBlocks takes every childless block_quote that carries a basic "
+        "attribute out of the tree (facts read from sphinx/transforms). R25 every text handed to markdown-it's block parser provably ends "
+        "with a line feed (the plugins' block rules read the start of the next line unchecked). R26 render_substitution never renders "
+        "block-level text while its `inline` parameter is true (known finding: a value that starts a directive). R5 also accepts a fixpoint "
+        "loop on a buffer that only shrinks (html.parser's rawdata, read from the stdlib). A structural self-recursion `child.m()` inside "
+        "`m` is a RecursionError origin in R1 (parsed HTML nests without bound); calls resolved by method name only are not followed into "
+        "classes whose module the caller does not import, nor through receivers annotated with foreign classes. R23 a loop that "
         "detaches every node of its collection (parent.remove/replace/index, replace_self) iterates one traversal evaluated at loop start, not a "
         "list flattened from the traversals of several roots (a node below two roots would be detached twice: ValueError). R18 also rejects a "
         "package subclass of the sandbox that overrides one of its safety predicates. R5 also flags a "
@@ -119,7 +125,7 @@ META = {
         "recursion DEPTH on pathologically nested input is decided for the catalogued PyYAML entry points only (yaml.safe_load/load: "
         "RecursionError is part of the catalogue entry because Composer.compose_node recurses per nesting level, read from yaml/composer.py); "
         "Element.deepcopy/render in html_to_nodes on ~1200 nested inline tags, deeply nested block quotes/lists in the renderer and other "
-        "recursive walks over a finite structure stay not decided (R4 only decides re-entry on text that is NOT a sub-structure); NUL bytes introduced by other means than the catalogued percent-decoders."
+        "recursive walks over docutils / markdown-it trees stay not decided (parsed HTML is decided: self-recursive methods are RecursionError origins) (R4 only decides re-entry on text that is NOT a sub-structure); NUL bytes introduced by other means than the catalogued percent-decoders."
     ),
     "trusted_base": [
         "CPython ast",
@@ -1006,6 +1012,8 @@ def _stuck_path(w: ast.While, fi: FunctionInfo) -> str | None:
                 if isinstance(c, ast.Call) and not _is_pure_call(c):
                     if isinstance(c.func, ast.Attribute) and hands_over(c.func.value):
                         return True
+                    if isinstance(c.func, ast.Attribute) and isinstance(c.func.value, ast.Call) and dotted(c.func.value.func) == "super" and "self" in reads:
+                        return True  # super().m(...) works on self
                     if any(hands_over(a) for a in list(c.args) + [k.value for k in c.keywords]):
                         return True
         return False
@@ -1155,7 +1163,77 @@ def _worklist_variant(w: ast.While, fi: FunctionInfo, test: ast.expr) -> str | N
     return None
 
 
+def _stdlib_buffer_only_shrinks(corpus: Corpus, attr: str) -> bool:
+    """Every assignment to ``self.<attr>`` in html.parser.HTMLParser is '', a suffix slice of the buffer, or
+    ``self.<attr> + data`` in feed(data) (no growth for feed(""))."""
+
+    def compute():
+        try:
+            m = corpus.sibling("stdlib:html/parser.py")
+        except Exception:
+            return False
+        ci = m.classes.get("HTMLParser")
+        if ci is None:
+            return False
+        n = 0
+        for f in ci.methods.values():
+            for a in f.local_nodes():
+                if isinstance(a, ast.Assign) and any(unparse(t) == f"self.{attr}" for t in a.targets):
+                    n += 1
+                    v = a.value
+                    ok = (isinstance(v, ast.Constant) and v.value == "") or (
+                        isinstance(v, ast.Subscript) and isinstance(v.slice, ast.Slice) and v.slice.upper is None and v.slice.step is None and unparse(v.value) in (attr, f"self.{attr}")
+                    ) or (f.name == "feed" and isinstance(v, ast.BinOp) and isinstance(v.op, ast.Add) and unparse(v.left) == f"self.{attr}" and isinstance(v.right, ast.Name) and v.right.id in f.params)
+                    if not ok:
+                        return False
+        return n > 0
+
+    return corpus.cache(f"c01-stdlib-buffer-shrinks-{attr}", compute)
+
+
+def _fixpoint_on_shrinking_buffer(w: ast.While, fi: FunctionInfo, corpus: Corpus) -> str | None:
+    """``while snap != self.buf: snap = self.buf; ...``: the loop ends as soon as a round leaves the buffer unchanged;
+    a round that changes it makes it strictly shorter (suffix slices here, and html.parser's own feed("") only consumes)."""
+    t = w.test
+    if not (isinstance(t, ast.Compare) and len(t.ops) == 1 and isinstance(t.ops[0], ast.NotEq)):
+        return None
+    for snap, buf in ((t.left, t.comparators[0]), (t.comparators[0], t.left)):
+        if not (isinstance(snap, ast.Name) and isinstance(buf, ast.Attribute) and isinstance(buf.value, ast.Name) and buf.value.id == "self"):
+            continue
+        btxt = unparse(buf)
+        first = w.body[0] if w.body else None
+        if not (isinstance(first, ast.Assign) and len(first.targets) == 1 and isinstance(first.targets[0], ast.Name) and first.targets[0].id == snap.id and unparse(first.value) == btxt):
+            continue
+        ok = True
+        for x in ast.walk(w):
+            if isinstance(x, ast.Assign) and any(unparse(tg) == btxt for tg in x.targets):
+                v = x.value
+                if not (isinstance(v, ast.Subscript) and isinstance(v.slice, ast.Slice) and v.slice.upper is None and v.slice.step is None and v.slice.lower is not None and unparse(v.value) in (snap.id, btxt)):
+                    ok = False
+            elif isinstance(x, ast.AugAssign) and unparse(x.target) == btxt:
+                ok = False
+            elif isinstance(x, ast.Name) and x.id == snap.id and isinstance(x.ctx, ast.Store) and parent(x) is not first:
+                ok = False
+            elif isinstance(x, ast.Call) and isinstance(x.func, ast.Attribute):
+                recv = x.func.value
+                on_self = (isinstance(recv, ast.Name) and recv.id == "self") or (isinstance(recv, ast.Call) and dotted(recv.func) == "super")
+                if on_self and x.func.attr == "feed":
+                    if not (len(x.args) == 1 and isinstance(x.args[0], ast.Constant) and x.args[0].value == ""):
+                        ok = False  # feeding more input grows the buffer
+                elif on_self and x.func.attr not in ("handle_data", "handle_comment", "handle_starttag", "handle_endtag", "close") and not x.func.attr.startswith("handle_"):
+                    ok = False
+        if ok and _stdlib_buffer_only_shrinks(corpus, buf.attr):
+            return (
+                f"fixpoint on a shrinking buffer: every round snapshots `{btxt}`; it ends when the round left the buffer unchanged, and a round that changes it leaves a strict suffix "
+                "(slices here; html.parser's feed('') only consumes, read from the stdlib source)"
+            )
+    return None
+
+
 def _loop_variant(w: ast.While, fi: FunctionInfo, corpus: Corpus) -> str | None:
+    v0 = _fixpoint_on_shrinking_buffer(w, fi, corpus)
+    if v0:
+        return v0
     test = _effective_test(w)
     v = _counter_variant(w, fi, test) or _worklist_variant(w, fi, test)
     if v:
@@ -3176,8 +3254,32 @@ def _transitions_hidden_by(corpus: Corpus) -> tuple[str | None, str]:
                     if not isinstance(st, ast.If):
                         continue
                     t = st.test
-                    if not (isinstance(t, ast.UnaryOp) and isinstance(t.op, ast.Not) and isinstance(t.operand, ast.Call) and dotted(t.operand.func) == "isinstance" and len(t.operand.args) == 2 and unparse(t.operand.args[0]) == f"{v}.parent"):
+                    if not (isinstance(t, ast.UnaryOp) and isinstance(t.op, ast.Not) and isinstance(t.operand, ast.Call) and dotted(t.operand.func) == "isinstance" and len(t.operand.args) == 2):
                         continue
+                    subject = t.operand.args[0]
+                    if unparse(subject) != f"{v}.parent":
+                        # ... or an ancestor reached from `v.parent` by climbing out of sections only:
+                        # `p = v.parent; while isinstance(p, nodes.section): p = p.parent` - whatever is NOT hidden then
+                        # still has a section or the document as its direct parent
+                        if not isinstance(subject, ast.Name):
+                            continue
+                        pdefs = [d for b in lp.body for d in ast.walk(b) if isinstance(d, ast.Assign) and len(d.targets) == 1 and isinstance(d.targets[0], ast.Name) and d.targets[0].id == subject.id]
+                        start = [d for d in pdefs if unparse(d.value) == f"{v}.parent"]
+                        climbs = [d for d in pdefs if unparse(d.value) == f"{subject.id}.parent"]
+                        if len(start) != 1 or len(start) + len(climbs) != len(pdefs):
+                            continue
+                        ok_climb = True
+                        for d in climbs:
+                            wl = next((a for a in ancestors(d) if isinstance(a, ast.While)), None)
+                            tt = wl.test if wl is not None else None
+                            if not (isinstance(tt, ast.Call) and dotted(tt.func) == "isinstance" and len(tt.args) == 2 and unparse(tt.args[0]) == subject.id):
+                                ok_climb = False
+                                continue
+                            cl = tt.args[1].elts if isinstance(tt.args[1], ast.Tuple) else ([tt.args[1].left, tt.args[1].right] if isinstance(tt.args[1], ast.BinOp) else [tt.args[1]])
+                            if not all((dotted(c_) or "").rsplit(".", 1)[-1] == "section" for c_ in cl):
+                                ok_climb = False
+                        if not ok_climb:
+                            continue
                     tp = t.operand.args[1]
                     classes = tp.elts if isinstance(tp, ast.Tuple) else ([tp.left, tp.right] if isinstance(tp, ast.BinOp) and isinstance(tp.op, ast.BitOr) else [tp])
                     if not classes or not all((dotted(c_) or "").rsplit(".", 1)[-1] in ("document", "section") for c_ in classes):
@@ -3659,10 +3761,15 @@ def r23_single_removal(corpus: Corpus, rep: Report, tier: str):
             if not (isinstance(lp, ast.For) and isinstance(lp.target, ast.Name)):
                 continue
             v = lp.target.id
+            parents = {f"{v}.parent"} | {
+                a_.targets[0].id
+                for b in lp.body for a_ in ast.walk(b)
+                if isinstance(a_, ast.Assign) and len(a_.targets) == 1 and isinstance(a_.targets[0], ast.Name) and unparse(a_.value) == f"{v}.parent"
+            }
             detaches = [
                 c for b in lp.body for c in ast.walk(b)
                 if isinstance(c, ast.Call) and isinstance(c.func, ast.Attribute)
-                and ((c.func.attr in _DETACH and unparse(c.func.value) == f"{v}.parent" and c.args and unparse(c.args[0]) == v) or (c.func.attr == "replace_self" and unparse(c.func.value) == v))
+                and ((c.func.attr in _DETACH and unparse(c.func.value) in parents and c.args and unparse(c.args[0]) == v) or (c.func.attr == "replace_self" and unparse(c.func.value) == v))
             ]
             if not detaches:
                 continue
@@ -3695,11 +3802,233 @@ def r23_single_removal(corpus: Corpus, rep: Report, tier: str):
     rep.expect_min("C01.R23", 2, "loops that detach the nodes of a traversal")
 
 
+# ---------------------------------------------------------------------------
+# R24 empty block quotes that carry attributes are hidden from Sphinx's HandleCodeBlocks
+#
+# sphinx.transforms.HandleCodeBlocks replaces every block_quote whose children are all doctest blocks by its children -
+# ``all([])`` holds for a block quote WITHOUT children - and docutils' replace_self asserts that no basic attribute
+# (ids, names, classes, dupnames) is lost: AssertionError aborts the build.  A transform of the package must take such
+# block quotes out of the tree before HandleCodeBlocks runs, and the Sphinx parser must register it.
+
+
+def _sphinx_handle_code_blocks_priority(corpus: Corpus) -> int | None:
+    def compute():
+        m = corpus.sibling_module("sphinx.transforms")
+        ci = m.classes.get("HandleCodeBlocks") if m is not None else None
+        if ci is None:
+            return 210
+        ap = ci.methods.get("apply")
+        vacuous = ap is not None and any(
+            isinstance(c, ast.Call) and dotted(c.func) == "all" and c.args and isinstance(c.args[0], ast.GeneratorExp) and "children" in unparse(c.args[0].generators[0].iter)
+            for c in ap.local_nodes()
+        ) and any(isinstance(c, ast.Call) and isinstance(c.func, ast.Attribute) and c.func.attr == "replace_self" for c in ap.local_nodes())
+        if not vacuous:
+            return None  # this Sphinx does not replace childless block quotes any more
+        for st in ci.node.body:
+            if isinstance(st, ast.Assign) and any(isinstance(t, ast.Name) and t.id == "default_priority" for t in st.targets) and isinstance(st.value, ast.Constant):
+                return st.value.value
+        return 210
+
+    return corpus.cache("c01-sphinx-handlecodeblocks", compute)
+
+
+_BASIC_ATTRS = {"ids", "names", "classes", "dupnames"}
+
+
+@rule("C01.R24")
+def r24_empty_block_quotes(corpus: Corpus, rep: Report, tier: str):
+    rep.rule(
+        "C01.R24",
+        "a registered transform that runs before sphinx's HandleCodeBlocks takes every childless block_quote carrying ids/names/classes/dupnames out of the tree "
+        "(HandleCodeBlocks replaces a childless block quote by its children and docutils asserts that no attribute is lost)",
+    )
+    prio = _sphinx_handle_code_blocks_priority(corpus)
+    k = "myst_parser.parsers.sphinx_:MystParser.get_transforms|childless block quotes hidden from HandleCodeBlocks"
+    gt = corpus.func("parsers.sphinx_:MystParser.get_transforms")
+    if prio is None:
+        rep.ok("C01.R24", k, gt.site(), "this Sphinx no longer replaces childless block quotes")
+        return
+    rep.saw_sibling("sphinx/transforms/__init__.py")
+    # can the renderer produce a childless block quote with attributes at all?
+    why = "no transform of the package hides childless block quotes"
+    for ci in corpus.all_classes():
+        if not any(b.rsplit(".", 1)[-1] == "Transform" for b in ci.bases):
+            continue
+        ap = ci.methods.get("apply")
+        if ap is None:
+            continue
+        covered = None
+        for lp in ap.local_nodes():
+            if not (isinstance(lp, ast.For) and isinstance(lp.target, ast.Name) and any(isinstance(x, ast.Attribute) and x.attr == "block_quote" for x in ast.walk(lp.iter))):
+                continue
+            v = lp.target.id
+            for st in lp.body:
+                if not (isinstance(st, ast.If) and any(isinstance(c, ast.Call) and isinstance(c.func, ast.Attribute) and c.func.attr == "replace_self" and unparse(c.func.value) == v for b in st.body for c in ast.walk(b))):
+                    continue
+                conj = st.test.values if isinstance(st.test, ast.BoolOp) and isinstance(st.test.op, ast.And) else [st.test]
+                childless = any(
+                    (isinstance(t, ast.UnaryOp) and isinstance(t.op, ast.Not) and unparse(t.operand) in (f"{v}.children", f"len({v}.children)", f"len({v})", v))
+                    or (isinstance(t, ast.Compare) and len(t.ops) == 1 and isinstance(t.ops[0], ast.Eq) and unparse(t.left) in (f"len({v}.children)", f"len({v})") and unparse(t.comparators[0]) == "0")
+                    for t in conj
+                )
+                others = [t for t in conj if not ((isinstance(t, ast.UnaryOp) and "children" in unparse(t)) or (isinstance(t, ast.Compare) and "len(" in unparse(t)))]
+                attrs_ok = True
+                for t in others:
+                    txt = unparse(t)
+                    named = {a for a in _BASIC_ATTRS if f"'{a}'" in txt or f'"{a}"' in txt}
+                    if "basic_attributes" in txt and dotted(t.func if isinstance(t, ast.Call) else t) in ("any", None) and isinstance(t, ast.Call) and dotted(t.func) == "any":
+                        continue  # any(node[att] for att in node.basic_attributes)
+                    if isinstance(t, ast.BoolOp) and isinstance(t.op, ast.Or) and named >= _BASIC_ATTRS:
+                        continue
+                    attrs_ok = False
+                    covered = (False, f"{ci.name} only hides childless block quotes when `{short(t, 60)}`: one carrying another basic attribute (ids, names, classes, dupnames) still reaches HandleCodeBlocks")
+                if childless and attrs_ok:
+                    covered = (True, "")
+                elif not childless and covered is None:
+                    covered = (False, f"{ci.name} does not test for childless block quotes")
+        if covered is None:
+            continue
+        if not covered[0]:
+            why = covered[1]
+            continue
+        pr = next((st.value for st in ci.node.body if isinstance(st, ast.Assign) and any(isinstance(t_, ast.Name) and t_.id == "default_priority" for t_ in st.targets)), None)
+        pv = pr.value if isinstance(pr, ast.Constant) and isinstance(pr.value, int) else None
+        if pv is None or pv >= prio:
+            why = f"{ci.name} hides childless block quotes, but its default_priority `{short(pr, 30) if pr is not None else '?'}` is not below HandleCodeBlocks' {prio}"
+            continue
+        if not any(isinstance(x, ast.Name) and x.id == ci.name for r in gt.local_nodes() if isinstance(r, ast.Return) and r.value is not None for x in ast.walk(r.value)):
+            why = f"{ci.name} hides childless block quotes, but MystParser.get_transforms does not register it"
+            continue
+        rep.ok("C01.R24", k, gt.site(), f"{ci.name} (priority {pv} < {prio}, registered by the Sphinx parser) replaces every childless block quote that carries a basic attribute")
+        return
+    rep.violation(
+        "C01.R24",
+        k,
+        gt.site(),
+        f"{why}: `{{#a}}` before a lone `>` (attrs_block), or an {{epigraph}} whose body is only `[a]: url`, gives a childless block_quote with ids/classes; sphinx's HandleCodeBlocks "
+        "(priority 210) replaces it by its (no) children and docutils asserts `Losing \"ids\" attribute`: AssertionError aborts the Sphinx build",
+    )
+
+
+# ---------------------------------------------------------------------------
+# R25 the text handed to markdown-it's block parser ends with a line feed
+#
+# Block rules of the MyST plugins (myst_blocks, colon_fence) read ``state.src`` at the start of the next line without a
+# bounds check; for an empty last line of a container (``>`` at the very end of the text) that is the end of the
+# string: IndexError.  Every block-level parse therefore newline-terminates its text.
+
+
+def _newline_terminated(fi: FunctionInfo, call: ast.Call, e: ast.expr) -> bool:
+    if isinstance(e, ast.BinOp) and isinstance(e.op, ast.Add) and isinstance(e.right, ast.Constant) and isinstance(e.right.value, str) and e.right.value.endswith("\n"):
+        return True
+    if isinstance(e, ast.JoinedStr) and e.values and isinstance(e.values[-1], ast.Constant) and str(e.values[-1].value).endswith("\n"):
+        return True
+    if not isinstance(e, ast.Name):
+        return False
+    cfg = get_cfg(fi)
+    C = cfg.stmt_of(call)
+    for t, pol in cfg.guards(C):
+        if pol and isinstance(t, ast.Call) and isinstance(t.func, ast.Attribute) and t.func.attr == "endswith" and unparse(t.func.value) == e.id and t.args and isinstance(t.args[0], ast.Constant) and t.args[0].value == "\n":
+            return True
+    # `if not x.endswith("\n"): x += "\n"` (or x = x + "\n") dominating the call, x not re-bound afterwards
+    for I in fi.local_nodes():
+        if not (isinstance(I, ast.If) and not I.orelse and isinstance(I.test, ast.UnaryOp) and isinstance(I.test.op, ast.Not)):
+            continue
+        t = I.test.operand
+        if not (isinstance(t, ast.Call) and isinstance(t.func, ast.Attribute) and t.func.attr == "endswith" and unparse(t.func.value) == e.id and t.args and isinstance(t.args[0], ast.Constant) and t.args[0].value == "\n"):
+            continue
+        fixes = [
+            x for x in I.body
+            if (isinstance(x, ast.AugAssign) and isinstance(x.op, ast.Add) and unparse(x.target) == e.id and isinstance(x.value, ast.Constant) and str(x.value.value).endswith("\n"))
+            or (isinstance(x, ast.Assign) and len(x.targets) == 1 and unparse(x.targets[0]) == e.id and _newline_terminated(fi, call, x.value))
+        ]
+        if not fixes or not cfg.dominates(I, C):
+            continue
+        later = [x for x in fi.local_nodes() if isinstance(x, ast.Name) and x.id == e.id and isinstance(x.ctx, (ast.Store, ast.Del)) and I.end_lineno < x.lineno <= call.lineno]
+        if not later:
+            return True
+    return False
+
+
+@rule("C01.R25")
+def r25_newline_terminated_source(corpus: Corpus, rep: Report, tier: str):
+    rep.rule("C01.R25", "every text handed to markdown-it's block parser (parser.render in both front ends, md.parse in nested renders) provably ends with a line feed")
+    n = 0
+    sites: list[tuple[FunctionInfo, ast.Call, ast.expr]] = []
+    for _, fq, _ in FRONT_ENTRIES:
+        if fq.endswith(".parse"):
+            pf = corpus.func(fq)
+            for c in pf.local_nodes():
+                if isinstance(c, ast.Call) and isinstance(c.func, ast.Attribute) and c.func.attr == "render" and c.args and isinstance(c.func.value, ast.Name):
+                    sites.append((pf, c, c.args[0]))
+    base = corpus.cls("mdit_to_docutils.base:DocutilsRenderer")
+    for ci in [base] + corpus.subclasses(base):
+        for f in ci.methods.values():
+            if f.is_lambda:
+                continue
+            for c in f.local_nodes():
+                if isinstance(c, ast.Call) and isinstance(c.func, ast.Attribute) and c.func.attr == "parse" and unparse(c.func.value) == "self.md" and c.args:
+                    sites.append((f, c, c.args[0]))
+    for f, c, e in sites:
+        n += 1
+        k = f"{f.fq}|{unparse(c.func)}({short(e, 30)})"
+        if _newline_terminated(f, c, e):
+            rep.ok("C01.R25", k, f.module.site(c), "the text ends with a line feed")
+        else:
+            rep.violation(
+                "C01.R25",
+                k,
+                f.module.site(c),
+                f"`{short(c, 50)}` parses a text that need not end with a line feed: for `> % a comment\\n>` (an empty last line of a block quote at the very end of the text) the "
+                "myst_blocks / colon_fence block rules read state.src at the start of the next line unchecked: IndexError out of the parse",
+            )
+    rep.expect_min("C01.R25", 3, "block-level markdown-it parse calls")
+
+
+# ---------------------------------------------------------------------------
+# R26 an inline substitution is not rendered as blocks
+#
+# ``render_substitution(token, inline=True)`` runs with a paragraph (a TextElement) as current node.  A block-level nested
+# render there places block nodes - e.g. the pending(ClassAttribute) of a content-less ``{class}`` directive - next to
+# Text nodes; docutils' ClassAttribute transform subscripts the following sibling: TypeError on a Text.
+
+
+@rule("C01.R26")
+def r26_inline_substitution(corpus: Corpus, rep: Report, tier: str):
+    rep.rule("C01.R26", "render_substitution never renders block-level text while its `inline` parameter is true")
+    f = corpus.func("mdit_to_docutils.base:DocutilsRenderer.render_substitution")
+    if "inline" not in f.params:
+        rep.error("C01.R26", f"{f.site()}: render_substitution has no `inline` parameter")
+        return
+    cfg = get_cfg(f)
+    n = 0
+    for c in f.local_nodes():
+        if not (isinstance(c, ast.Call) and isinstance(c.func, ast.Attribute) and c.func.attr == "nested_render_text"):
+            continue
+        n += 1
+        arg = next((k_.value for k_ in c.keywords if k_.arg == "inline"), c.args[2] if len(c.args) > 2 else None)
+        inline_false = any(isinstance(t, ast.Name) and t.id == "inline" and not pol for t, pol in cfg.guards(cfg.stmt_of(c)))
+        k = f"{f.fq}|nested_render_text({'inline=' + unparse(arg) if arg is not None else 'block'})"
+        if inline_false or (isinstance(arg, ast.Constant) and arg.value is True) or (isinstance(arg, ast.Name) and arg.id == "inline"):
+            rep.ok("C01.R26", k, f.module.site(c), "inline text is rendered inline" if not inline_false else "only reached for a block substitution")
+        else:
+            rep.violation(
+                "C01.R26",
+                f"{f.fq}|block-level nested render reachable with inline=True",
+                f.module.site(c),
+                f"`{short(c, 60)}` renders the substituted text as blocks and can run while `inline` is true (the current node is then a paragraph): `Some {{{{ important }}}} text.` with "
+                "important = '```{class} important\\n```' puts the directive's pending(ClassAttribute) next to Text nodes and docutils' ClassAttribute transform raises TypeError",
+            )
+    if n < 2:
+        rep.error("C01.R26", f"expected the inline and the block nested render of render_substitution, found {n}")
+
+
 RULES = [
     r1_failure_mode_closure, r2_token_line, r3_html_attr_none, r4_reentry_guards, r5_loop_progress, r6_yaml_narrowing, r7_single_registration,
     r8_nullable_env_slots, r9_document_attributes, r10_config_divisors, r11_disable_syntax, r12_handler_attributes, r13_rebound_loop_key,
     r14_heading_offset, r15_registry_none, r16_settings_attributes, r17_transition_parent,
     r18_document_chosen_code, r19_pickled_config, r20_transform_reapplication, r21_detached_pending, r22_pending_components, r23_single_removal,
+    r24_empty_block_quotes, r25_newline_terminated_source, r26_inline_substitution,
 ]
 
 
@@ -3712,8 +4041,8 @@ def mutants(corpus: Corpus):
     base = corpus.mod("mdit_to_docutils.base")
     h2n = corpus.mod("mdit_to_docutils.html_to_nodes")
     # 1. drop the try around tokenize_html in html_to_nodes
-    f = h2n.func("html_to_nodes")
-    tr = find_stmt(f, lambda s: isinstance(s, ast.Try))
+    f = next((x for x in h2n.functions.values() if not x.is_lambda and any(isinstance(t_, ast.Try) and any(isinstance(c_, ast.Call) and dotted(c_.func) == "tokenize_html" for b_ in t_.body for c_ in ast.walk(b_)) for t_ in x.local_nodes())), h2n.func("html_to_nodes"))
+    tr = find_stmt(f, lambda s: isinstance(s, ast.Try) and any(isinstance(c_, ast.Call) and dotted(c_.func) == "tokenize_html" for b_ in s.body for c_ in ast.walk(b_)))
     # (since the F23 repair the only raise of HTMLParser.feed is caught inside the parser class itself:
     #  the mutant also reverts that repair, otherwise nothing can escape and dropping the try is harmless)
     ph = corpus.mod("parsers.parse_html")
@@ -3836,8 +4165,12 @@ def mutants(corpus: Corpus):
     # --- tuple-unpack of split-derived sequences (catalogue entry generalised in round 2) ---
     f = base.func("DocutilsRenderer.render_link_inventory")
     wth = find_node(f, lambda n: isinstance(n, ast.With) and "suppress(IndexError)" in unparse(n.items[0].context_expr))
-    if wth is not None and wth.body and isinstance(wth.body[0], ast.Assign) and isinstance(wth.body[0].value, ast.Subscript):
-        parts = unparse(wth.body[0].value.value)
+    def _indexed(v_):
+        v_ = v_.values[0] if isinstance(v_, ast.BoolOp) and isinstance(v_.op, ast.Or) else v_
+        return v_ if isinstance(v_, ast.Subscript) else None
+
+    if wth is not None and wth.body and isinstance(wth.body[0], ast.Assign) and _indexed(wth.body[0].value) is not None:
+        parts = unparse(_indexed(wth.body[0].value).value)
         names = [unparse(b.targets[0]) for b in wth.body if isinstance(b, ast.Assign)]
         lhs = ", ".join(names)
         # the split that feeds the parts: a maxsplit that already bounds the number of parts is dropped as well
@@ -4028,6 +4361,57 @@ def mutants(corpus: Corpus):
         out.append(Mutant("c01-disable-ignore-invalid-false", "C01.R11", mdm_.rel, splice(mdm_.src, dcall.args[1], "False"), expect="unknown names"))
     else:
         out.append(("c01-disable-ignore-invalid-dropped", "create_md_parser does not call md.disable(x, True)"))
+    # --- round 14 (second hunt): repairs reverted and partially weakened ---
+    # 7bb3517 HideEmptyBlockQuotes (R24)
+    tmx = corpus.mod("mdit_to_docutils.transforms")
+    hq = tmx.classes.get("HideEmptyBlockQuotes")
+    spx = corpus.mod("parsers.sphinx_")
+    if hq is not None:
+        gt = spx.func("MystParser.get_transforms")
+        nm_ = find_node(gt, lambda n: isinstance(n, ast.Name) and n.id == "HideEmptyBlockQuotes" and isinstance(parent(n), ast.List))
+        if nm_ is not None:
+            lst = parent(nm_)
+            out.append(Mutant("c01-empty-block-quotes-not-hidden", "C01.R24", spx.rel, splice(spx.src, lst, "[" + ", ".join(unparse(e) for e in lst.elts if e is not nm_) + "]"), expect="childless block quotes"))
+        pr = next((st for st in hq.node.body if isinstance(st, ast.Assign) and any(isinstance(t_, ast.Name) and t_.id == "default_priority" for t_ in st.targets)), None)
+        if pr is not None:
+            out.append(Mutant("c01-empty-block-quotes-hidden-too-late", "C01.R24", tmx.rel, splice(tmx.src, pr.value, "211"), expect="childless block quotes"))
+        ap = hq.methods["apply"]
+        anyc = find_node(ap, lambda n: isinstance(n, ast.Call) and dotted(n.func) == "any" and "basic_attributes" in unparse(n))
+        if anyc is not None:
+            v_ = unparse(anyc.args[0].elt.value) if isinstance(anyc.args[0], ast.GeneratorExp) and isinstance(anyc.args[0].elt, ast.Subscript) else "node"
+            out.append(Mutant("c01-empty-block-quotes-only-ids-hidden", "C01.R24", tmx.rel, splice(tmx.src, anyc, f'bool({v_}["ids"])'), expect="childless block quotes"))
+    else:
+        out.append(("c01-empty-block-quotes-not-hidden", "no HideEmptyBlockQuotes transform"))
+    # 9c0c38c newline-terminated top-level source (R25)
+    for modname, q, tag in (("parsers.docutils_", "Parser.parse", "docutils"), ("parsers.sphinx_", "MystParser.parse", "sphinx")):
+        pm = corpus.mod(modname)
+        f = pm.func(q)
+        nif = find_node(f, lambda n: isinstance(n, ast.If) and "endswith" in unparse(n.test) and any(isinstance(x, ast.AugAssign) for x in n.body))
+        if nif is not None:
+            out.append(Mutant(f"c01-source-not-newline-terminated-{tag}", "C01.R25", pm.rel, splice(pm.src, nif, "pass"), expect="render(inputstring)"))
+        else:
+            out.append((f"c01-source-not-newline-terminated-{tag}", f"{q} has no `if not x.endswith(..): x += ..`"))
+    f = base.func("DocutilsRenderer.nested_render_text")
+    pc = find_node(f, lambda n: isinstance(n, ast.Call) and unparse(n.func) == "self.md.parse" and isinstance(n.args[0], ast.BinOp))
+    if pc is not None:
+        out.append(Mutant("c01-nested-text-not-newline-terminated", "C01.R25", base.rel, splice(base.src, pc.args[0], unparse(pc.args[0].left)), expect="nested_render_text|self.md.parse"))
+    # b7b74b6 RecursionError of the per-level walks over parsed HTML (R1 catalogue: structural self-recursion)
+    h2n_ = corpus.mod("mdit_to_docutils.html_to_nodes")
+    f = h2n_.func("html_to_nodes")
+    tr_ = find_node(f, lambda n: isinstance(n, ast.Try) and any(h_.type is not None and "RecursionError" in unparse(h_.type) for h_ in n.handlers))
+    if tr_ is not None:
+        h_ = next(h_ for h_ in tr_.handlers if h_.type is not None and "RecursionError" in unparse(h_.type))
+        out.append(Mutant("c01-html-recursion-handler-narrowed", "C01.R1", h2n_.rel, splice(h2n_.src, h_.type, "ValueError"), expect="|RecursionError|"))
+        out.append(Mutant("c01-html-recursion-try-dropped", "C01.R1", h2n_.rel, unwrap_try(f, tr_), expect="|RecursionError|"))
+    else:
+        out.append(("c01-html-recursion-handler-narrowed", "html_to_nodes has no handler for RecursionError"))
+    # 2ea1b0a+ HideNestedTransitions partially weakened: the climb also leaves topics / sidebars (any Structural) visible
+    hider, _ = _transitions_hidden_by(corpus)
+    if hider is not None:
+        hci = tmx.classes[hider]
+        wl = find_node(hci.methods["apply"], lambda n: isinstance(n, ast.While) and "isinstance" in unparse(n.test))
+        if wl is not None and isinstance(wl.test, ast.Call):
+            out.append(Mutant("c01-nested-transitions-climb-through-structural", "C01.R17", tmx.rel, splice(tmx.src, wl.test.args[1], "nodes.Structural"), expect="transition attached to"))
     # --- the escape digits are consumed before they are validated (catalogue: forward(N) before its validation loop) ---
     f = om.func("_scan_flow_scalar_non_spaces")
     vloop = find_node(f, lambda n: isinstance(n, ast.For) and isinstance(n.iter, ast.Call) and dotted(n.iter.func) == "range" and any(isinstance(x, ast.Raise) for x in ast.walk(n)))
